@@ -155,11 +155,41 @@ func vfC10Sums(c int) {
 
 // ---- centroid of a triangle is the mean of its vertices and lies in its bound ----
 
-func vfC10Centroid_N(tier int) int     { return 2 }
-func vfC10Centroid_Label(c int) string { return []string{"triangle", "multipoint"}[c] }
+func vfC10Centroid_N(tier int) int { return 6 }
+func vfC10Centroid_Label(c int) string {
+	return []string{"triangle", "multipoint", "linestring[one symbolic segment]", "multilinestring[empty, symbolic segment]", "multilinestring[segment, nil, vertical segment of symbolic length]", "linestring[zero-length segment, symbolic segment]"}[c]
+}
 
 func vfC10Centroid(c int) {
 	vfReach("centroid")
+	if c >= 2 {
+		// line centroids: the length-weighted mean of the segment midpoints; empty members count for nothing
+		a, b := vfP2("a"), vfP2("b")
+		vfAssume(vfOr(a[0] != b[0], a[1] != b[1]))
+		var g orb.Geometry
+		switch c {
+		case 2:
+			g = orb.LineString{a, b}
+		case 3:
+			g = orb.MultiLineString{{}, {a, b}}
+		case 5:
+			g = orb.LineString{a, a, b}
+		case 4:
+			s := vfReal("s")
+			vfAssume(vfAnd(s > 0, s < 1000))
+			g = orb.MultiLineString{{{0, 0}, {3, 4}}, nil, {{10, 0}, {10, s}}}
+			ce, ar := CentroidArea(g)
+			vfAssert("line-centroid-area-zero", ar == 0)
+			// lengths 5 and s, midpoints (1.5,2) and (10,s/2)
+			vfAssert("multiline-centroid-weighted-x", (5+s)*ce[0] == 5*1.5+s*10)
+			vfAssert("multiline-centroid-weighted-y", (5+s)*ce[1] == 5*2+s*s/2)
+			return
+		}
+		ce, ar := CentroidArea(g)
+		vfAssert("line-centroid-area-zero", ar == 0)
+		vfAssert("segment-centroid-is-midpoint", vfAnd(2*ce[0] == a[0]+b[0], 2*ce[1] == a[1]+b[1]))
+		return
+	}
 	if c == 1 {
 		p := vfPts("v", 3)
 		ce, a := CentroidArea(orb.MultiPoint(p))
